@@ -184,6 +184,8 @@ func rulesC14(w *World, r *Report) {
 		r.add("C14.R4 decode entry points recover", fnName(fn), w.pos(fn.Pos()), ok, fact)
 	}
 	r.floor("C14.R4 decode entry points", len(eps), 7)
+	// R5 nothing blocks; locks survive a recovered panic
+	w.ruleDecodeNeverBlocks(r, "C14.R5 the decode path never blocks", reach)
 	// census (role)
 	var census []string
 	counts := map[string]int{}
